@@ -19,6 +19,8 @@ fn devices() -> Vec<String> {
         "é".into(),
         "line1\nline2".into(),
         "x".repeat(4000),
+        "/dev/{options}".into(),
+        "{mdt}".into(),
     ]
 }
 
@@ -47,6 +49,12 @@ fn exprs() -> Vec<(Expr, Option<u32>)> {
         (Expr::or(Expr::and(t(Test::Type(vec![FType::File])), a(Action::Print)), a(Action::Print0)), Some(2)),
         (t(Test::Size(Cmp::Lt, 3, SizeUnit::Mega)), None),
         (Expr::and(t(Test::Name("x".into())), Expr::and(a(Action::FPrint("a".into())), a(Action::FPrint("b".into())))), None),
+        // user text that looks like a placeholder of a templating step
+        (Expr::and(t(Test::Name("{mdt}".into())), a(Action::Print)), None),
+        (Expr::and(t(Test::IName("x{mdt}y".into())), a(Action::FPrint("{mdt}".into()))), None),
+        (Expr::and(t(Test::Pool("{}".into())), a(Action::Printf(vec![Fmt::Lit("{mdt} {0} {policy} $mdt %mdt% ".into()), nl.clone()]))), Some(3)),
+        (Expr::or(t(Test::Path("{device}".into())), t(Test::Xattr("{path}".into()))), None),
+        (Expr::and(t(Test::Name("{terminate}".into())), Expr::and(t(Test::Name("{options}".into())), t(Test::Name("{policy}".into())))), Some(5)),
     ]
 }
 
@@ -268,7 +276,7 @@ pub fn run(ctx: &Ctx) -> i32 {
             level: "model_checking",
             exhaustive: true,
             rule: "state = (compiled expression, history of render operations); explicit-state exploration of every operation sequence (the compiled value is rebuilt and the history replayed, as it cannot be copied); each result is compared with the rendering of a fresh compile for the same path; renderings for different paths are read back and must differ in exactly one leaf, the device string literal, decoding to the path; distinct = (expression, device) pairs rendered".into(),
-            bound: format!("{} expressions x every sequence of length 1..{maxlen} over {} operations (scheme(d) for {} paths, io_map())", es.len(), nops, devs.len()),
+            bound: format!("{} expressions (five of them carrying placeholder-like user text) x every sequence of length 1..{maxlen} over {} operations (scheme(d) for {} paths, io_map())", es.len(), nops, devs.len()),
             assumptions: vec!["expressions without time tests (the embedded clock is C15's subject)".into()],
             extra: serde_json::Map::new(),
         },
